@@ -39,7 +39,7 @@ Definition codec_mismatches (cs : list (N * ccase)) : list N :=
 
 (* ---------------------------------------------------------- routing stream *)
 
-Inductive op := OUse (id : nat) | OHandle (me : method) (p : pattern) (h : nat).
+Inductive op := OUse (f : mwk) | OHandle (me : method) (p : pattern) (h : nat).
 
 (* runs the registration calls; returns the mux and the positions of the calls that panicked *)
 Fixpoint build (ops : list op) (i : nat) (m : mux) : mux * list nat :=
@@ -66,6 +66,7 @@ Inductive oout :=
 | OHandled (h : nat) (vs : list (bstr * bstr)) (hpat : bstr)   (* vs: the map Vars returned, sorted by key *)
 | O404 (ct : ctype) (body : option errbody)
 | O405
+| O301 (loc : bstr)              (* Location without the "//host" prefix *)
 | OOther.
 
 Record robs := { ro_panics : list nat;      (* registration calls that panicked *)
@@ -126,6 +127,7 @@ Definition out_ok (model : outcome) (o : oout) : bool :=
        | _, _ => false
        end
   | MethodNotAllowed, O405 => true
+  | Redirected l, O301 l' => beq l l'
   | _, _ => false
   end.
 
@@ -143,10 +145,10 @@ Definition rcase_ok (c : rcase) : bool :=
   | None, None => true
   | Some mo, Some o =>
     nat_list_eqb panics (ro_panics o)
-    && nat_list_eqb (mws m) (ro_ran o)
+    && nat_list_eqb (o_ran mo) (ro_ran o)
     && pre_ok (o_pre mo) (ro_pre o)
     && out_ok (o_out mo) (ro_out o)
-    && (is_nil (mws m) || beq (o_post mo) (ro_post o))
+    && (is_nil (o_ran mo) || beq (o_post mo) (ro_post o))
   | _, _ => false
   end.
 
